@@ -4,6 +4,7 @@
  */
 
 #include "parquet_types.h"
+#include <stddef.h>
 #include <stdlib.h>
 #include <string.h>
 #include <stdio.h>
@@ -679,6 +680,7 @@ carquet_status_t parquet_parse_page_header(
 
     memset(header, 0, sizeof(*header));
     *bytes_read = 0;
+    int parsed_member = 0;  /* field id of the sub-header parsed last */
 
     thrift_decoder_t dec;
     thrift_decoder_init(&dec, data, size);
@@ -709,6 +711,7 @@ carquet_status_t parquet_parse_page_header(
                 header->crc = thrift_read_i32(&dec);
                 break;
             case 5: {  /* data_page_header */
+                parsed_member = 5;
                 thrift_read_struct_begin(&dec);
                 thrift_type_t ft;
                 int16_t fid;
@@ -744,6 +747,7 @@ carquet_status_t parquet_parse_page_header(
                 break;
             }
             case 7: {  /* dictionary_page_header */
+                parsed_member = 7;
                 thrift_read_struct_begin(&dec);
                 thrift_type_t ft;
                 int16_t fid;
@@ -768,6 +772,7 @@ carquet_status_t parquet_parse_page_header(
                 break;
             }
             case 8: {  /* data_page_header_v2 */
+                parsed_member = 8;
                 thrift_read_struct_begin(&dec);
                 thrift_type_t ft;
                 int16_t fid;
@@ -821,6 +826,18 @@ carquet_status_t parquet_parse_page_header(
     if (thrift_decoder_has_error(&dec)) {
         CARQUET_SET_ERROR(error, dec.status, "%s", dec.error_message);
         return dec.status;
+    }
+
+    /* The sub-headers share a union that `type` selects. On a malformed header
+     * the selected member may not be the one that was parsed: it would then be a
+     * reinterpretation of another member, statistics pointers included. Present
+     * it as empty instead. */
+    int selected = header->type == CARQUET_PAGE_DATA ? 5
+                 : header->type == CARQUET_PAGE_DICTIONARY ? 7
+                 : header->type == CARQUET_PAGE_DATA_V2 ? 8 : 0;
+    if (selected != 0 && parsed_member != 0 && parsed_member != selected) {
+        memset(&header->data_page_header, 0,
+               sizeof(*header) - offsetof(parquet_page_header_t, data_page_header));
     }
 
     *bytes_read = dec.reader.pos;
